@@ -485,15 +485,21 @@ def part_from_matchfile(
     onset_in_beats = np.array([note.OnsetInBeats for note in snotes])
     unique_onsets, inv_idxs = np.unique(onset_in_beats, return_inverse=True)
 
-    iois_in_beats = np.diff(unique_onsets)
-    # (positions in beats need the maps that are indexed by beats)
-    beat_to_quarter = 4 / beat_type_map_from_beats(onset_in_beats)
+    def beats_to_quarters(time_in_beats):
+        # position in quarters of a position in beats (both measured from the
+        # first barline), following the time signatures of the file: the
+        # length of a beat changes with the denominator of the signature
+        quarters, last_beats, last_type = 0.0, 0.0, ts[0][2].denominator
+        for t_beats, _, t_sig in ts:
+            if t_beats > time_in_beats:
+                break
+            quarters += (t_beats - last_beats) * 4 / last_type
+            last_beats, last_type = t_beats, t_sig.denominator
+        return quarters + (time_in_beats - last_beats) * 4 / last_type
 
-    iois_in_quarters_offset = np.r_[
-        beat_to_quarter[0] * onset_in_beats[0],
-        (4 / beat_type_map_from_beats(unique_onsets[:-1])) * iois_in_beats,
-    ]
-    onset_in_quarters = np.cumsum(iois_in_quarters_offset)
+    # (an interval between two onsets may span a time-signature change, so
+    # every onset is converted on its own)
+    onset_in_quarters = np.array([beats_to_quarters(b) for b in unique_onsets])
     iois_in_quarters = np.diff(onset_in_quarters)
 
     # ___ these divs are relative to quarters;
@@ -716,17 +722,6 @@ def part_from_matchfile(
                         part_note.id
                     )
                 )
-    def beats_to_quarters(time_in_beats):
-        # position in quarters of a position in beats (both measured from the
-        # first barline), following the time signatures of the file
-        quarters, last_beats, last_type = 0.0, 0.0, ts[0][2].denominator
-        for t_beats, _, t_sig in ts:
-            if t_beats > time_in_beats:
-                break
-            quarters += (t_beats - last_beats) * 4 / last_type
-            last_beats, last_type = t_beats, t_sig.denominator
-        return quarters + (time_in_beats - last_beats) * 4 / last_type
-
     # add time signatures
     for ts_beat_time, ts_bar, tsg in ts:
         ts_beats = tsg.numerator
